@@ -192,6 +192,12 @@ class IDPool:
         self.id2obj = {}
 
     def id(self, obj=None):
+        c = ctx.cur
+        if c is not None and c.faults:
+            # a failing allocation while the variable table grows: only consulted when the op has faults scheduled
+            f = c.fault_at('idpool.id')
+            if f is not None and f.get('kind') == 'alloc-failure':
+                raise MemoryError('SimSAT: allocation failed while the variable pool was growing (injected)')
         if obj is None:
             self.top += 1
             return self.top
